@@ -69,47 +69,148 @@ theorem mem_cut_fst (sep : Char) (t : Text) (c : Char) (h : c ∈ (cut sep t).1)
       · exact .inl e
       · exact .inr (ih m)
 
-/-- the hypotheses under which scheme / host / port texts make an origin the parser recognises:
-the scheme is a scheme, host and port texts hold only unreserved / sub-delim / `:` characters
-(in particular no brackets: IPv6 literals are outside — see `ipv6_override_breaks`). -/
+theorem cut_some (sep : Char) (t a b : Text) (h : cut sep t = (a, some b)) : t = a ++ sep :: b ∧ sep ∉ a := by
+  induction t generalizing a with
+  | nil => simp [cut] at h
+  | cons c r ih =>
+    unfold cut at h
+    split at h
+    · rename_i hc
+      simp only [Prod.mk.injEq, Option.some.injEq] at h
+      obtain ⟨h1, h2⟩ := h
+      subst h1; subst h2; subst hc
+      simp
+    · rename_i hc
+      simp only [Prod.mk.injEq] at h
+      obtain ⟨h1, h2⟩ := h
+      have := ih (cut sep r).1 (by rw [← h2])
+      subst h1
+      refine ⟨by rw [List.cons_append, ← this.1], ?_⟩
+      intro m
+      rcases List.mem_cons.mp m with e | m
+      · exact hc e.symm
+      · exact this.2 m
+
+/-- a host as the caller / the server supplies it: `reg-name` (unreserved / sub-delim / `:` characters), or a
+bracketed IP literal `[…]` whose content is made of such characters and passes `_check_bracketed_host`.
+A `[` without its `]` — or with anything after the `]` — is outside. -/
+def hostOk (h : Text) : Bool :=
+  match h with
+  | '[' :: r =>
+    (match cut ']' r with
+     | (v, some []) => v.all authCharOk && checkBracketedHost v
+     | _ => false)
+  | _ => h.all authCharOk
+
+theorem hostOk_cases (h : Text) (hk : hostOk h = true) :
+    (∀ c ∈ h, authCharOk c = true) ∨
+    ∃ v, h = '[' :: v ++ [']'] ∧ (∀ c ∈ v, authCharOk c = true) ∧ checkBracketedHost v = true := by
+  unfold hostOk at hk
+  split at hk
+  · rename_i r
+    split at hk
+    · rename_i v hc
+      simp only [Bool.and_eq_true] at hk
+      have := cut_some ']' r v [] hc
+      refine .inr ⟨v, by rw [this.1]; rfl, fun c hc => List.all_eq_true.mp hk.1 c hc, hk.2⟩
+    · simp at hk
+  · exact .inl (fun c hc => List.all_eq_true.mp hk c hc)
+
+/-- the hypotheses under which scheme / host / port texts make an origin the parser recognises: the scheme is a
+scheme, the host is a reg-name or a bracketed IP literal (`hostOk`), the port text holds only unreserved /
+sub-delim / `:` characters. -/
 structure OriginTextsOk (w : Text × Text × Option Text) : Prop where
   scheme : schemeOk w.1 = true
-  host : ∀ c ∈ w.2.1, authCharOk c = true
+  host : hostOk w.2.1 = true
   port : ∀ p, w.2.2 = some p → ∀ c ∈ p, authCharOk c = true
 
-theorem mem_authText (w : Text × Text × Option Text) (c : Char) (hc : c ∈ authText w) :
-    c ∈ w.2.1 ∨ c = ':' ∨ ∃ p, w.2.2 = some p ∧ c ∈ p := by
+/-- the port suffix of `authText` -/
+def portSuffix (p : Option Text) : Text :=
+  match p with
+  | some pt => if pt = [] then [] else ':' :: pt
+  | none => []
+
+theorem authText_eq (w : Text × Text × Option Text) : authText w = w.2.1 ++ portSuffix w.2.2 := by
   obtain ⟨s, h, p⟩ := w
-  unfold authText at hc
-  rcases List.mem_append.mp hc with m | m
-  · exact .inl m
-  · cases p with
-    | none => simp at m
-    | some pt =>
-      simp only at m
-      split at m
-      · simp at m
-      · rcases List.mem_cons.mp m with e | m
-        · exact .inr (.inl e)
-        · exact .inr (.inr ⟨pt, rfl, m⟩)
+  cases p <;> rfl
+
+theorem mem_portSuffix (p : Option Text) (c : Char) (hc : c ∈ portSuffix p) : c = ':' ∨ ∃ pt, p = some pt ∧ c ∈ pt := by
+  cases p with
+  | none => simp [portSuffix] at hc
+  | some pt =>
+    simp only [portSuffix] at hc
+    split at hc
+    · simp at hc
+    · rcases List.mem_cons.mp hc with e | m
+      · exact .inl e
+      · exact .inr ⟨pt, rfl, m⟩
+
+theorem portSuffix_chars (w : Text × Text × Option Text) (h : OriginTextsOk w) :
+    ∀ c ∈ portSuffix w.2.2, authCharOk c = true := by
+  intro c hc
+  rcases mem_portSuffix _ c hc with e | ⟨pt, hp, m⟩
+  · subst e; decide
+  · exact h.port pt hp c m
+
+theorem netlocOk_plain (n : Text) (h : ∀ c ∈ n, authCharOk c = true) : netlocOk n = true := by
+  have h1 : n.contains '[' = false := by
+    cases hc : n.contains '[' with
+    | false => rfl
+    | true => exact absurd rfl (authCharOk_facts _ (h '[' (by simpa using hc))).1.2.2.1
+  have h2 : n.contains ']' = false := by
+    cases hc : n.contains ']' with
+    | false => rfl
+    | true => exact absurd rfl (authCharOk_facts _ (h ']' (by simpa using hc))).1.2.2.2
+  simp only [netlocOk, h1, h2, Bool.false_and, Bool.or_self, Bool.false_eq_true, if_false]
+
+theorem netlocOk_bracketed (v pp : Text) (hv : ∀ c ∈ v, authCharOk c = true) (hk : checkBracketedHost v = true) :
+    netlocOk ('[' :: v ++ [']'] ++ pp) = true := by
+  have hno : ']' ∉ v := fun m => (authCharOk_facts _ (hv ']' m)).1.2.2.2 rfl
+  have e : '[' :: v ++ [']'] ++ pp = '[' :: (v ++ ']' :: pp) := by simp
+  rw [e]
+  have c1 : ('[' :: (v ++ ']' :: pp)).contains '[' = true := by simp
+  have c2 : ('[' :: (v ++ ']' :: pp)).contains ']' = true := by simp
+  have c3 : cut '[' ('[' :: (v ++ ']' :: pp)) = ([], some (v ++ ']' :: pp)) := by simp [cut]
+  simp only [netlocOk, c1, c2, c3, Bool.not_true, Bool.and_false, Bool.or_self, Bool.false_eq_true, if_false,
+    Bool.and_self, if_true, Option.getD_some, cut_append_sep ']' v pp hno, hk]
 
 theorem originOk_of_texts (w : Text × Text × Option Text) (h : OriginTextsOk w) : OriginOk w.1 (authText w) := by
   have hs := h.scheme
   simp only [schemeOk, Bool.and_eq_true] at hs
-  refine ⟨hs.1, hs.2, ?_⟩
-  intro c hc
-  rcases mem_authText w c hc with m | e | ⟨p, hp, m⟩
-  · exact (authCharOk_facts c (h.host c m)).1
-  · subst e; decide
-  · exact (authCharOk_facts c (h.port p hp c m)).1
+  have hps := portSuffix_chars w h
+  rw [authText_eq]
+  rcases hostOk_cases _ h.host with hh | ⟨v, hv, hvc, hk⟩
+  · have hall : ∀ c ∈ w.2.1 ++ portSuffix w.2.2, authCharOk c = true := by
+      intro c hc
+      rcases List.mem_append.mp hc with m | m
+      · exact hh c m
+      · exact hps c m
+    refine ⟨hs.1, hs.2, fun c hc => ?_, netlocOk_plain _ hall⟩
+    exact ⟨(authCharOk_facts c (hall c hc)).1.1, (authCharOk_facts c (hall c hc)).1.2.1⟩
+  · rw [hv]
+    refine ⟨hs.1, hs.2, fun c hc => ?_, netlocOk_bracketed v _ hvc hk⟩
+    simp only [List.cons_append, List.mem_cons, List.mem_append, List.not_mem_nil, or_false] at hc
+    rcases hc with e | (m | e) | m
+    · subst e; decide
+    · exact ⟨(authCharOk_facts c (hvc c m)).1.1, (authCharOk_facts c (hvc c m)).1.2.1⟩
+    · subst e; decide
+    · exact ⟨(authCharOk_facts c (hps c m)).1.1, (authCharOk_facts c (hps c m)).1.2.1⟩
 
 theorem authText_wf (w : Text × Text × Option Text) (h : OriginTextsOk w) : pctWF isUrlC (authText w) = true := by
+  have hps := portSuffix_chars w h
+  rw [authText_eq]
   apply pctWF_of_all
   intro c hc
-  rcases mem_authText w c hc with m | e | ⟨p, hp, m⟩
-  · exact ⟨(authCharOk_facts c (h.host c m)).1.1, (authCharOk_facts c (h.host c m)).2⟩
-  · subst e; decide
-  · exact ⟨(authCharOk_facts c (h.port p hp c m)).1.1, (authCharOk_facts c (h.port p hp c m)).2⟩
+  rcases List.mem_append.mp hc with m | m
+  · rcases hostOk_cases _ h.host with hh | ⟨v, hv, hvc, hk⟩
+    · exact ⟨(authCharOk_facts c (hh c m)).1.1, (authCharOk_facts c (hh c m)).2⟩
+    · rw [hv] at m
+      simp only [List.cons_append, List.mem_cons, List.mem_append, List.not_mem_nil, or_false] at m
+      rcases m with e | m | e
+      · subst e; decide
+      · exact ⟨(authCharOk_facts c (hvc c m)).1.1, (authCharOk_facts c (hvc c m)).2⟩
+      · subst e; decide
+  · exact ⟨(authCharOk_facts c (hps c m)).1.1, (authCharOk_facts c (hps c m)).2⟩
 
 /-! ### the parser and the grammar on a whole generated URL -/
 
